@@ -7,12 +7,12 @@ package c12
 
 import (
 	"context"
-	"sort"
 	"encoding/json"
 	"errors"
 	"fmt"
 	"io"
 	"net/http"
+	"sort"
 	"strings"
 	"testing"
 	"time"
@@ -98,30 +98,30 @@ type scn struct {
 	BadURL      int    `json:"bad_url"`       // 0 none 1 pattern 2 base path 3 method
 	Method      string `json:"method"`
 
-	TimeoutMS   int64 `json:"timeout_ms"`   // 0 = no request timeout; -1 = leave default (30s)
-	ParentKind  int   `json:"parent_kind"`  // 0 none 1 op ctx deadline 2 op ctx cancelled at step 3 runtime ctx deadline 4 runtime ctx cancel
-	ParentMS    int64 `json:"parent_ms"`    // deadline offset
-	CancelStep  int   `json:"cancel_step"`  // scheduling step
-	Reuse       bool  `json:"reuse"`
-	AdvanceIn   int   `json:"advance_in"`
+	TimeoutMS  int64 `json:"timeout_ms"`  // 0 = no request timeout; -1 = leave default (30s)
+	ParentKind int   `json:"parent_kind"` // 0 none 1 op ctx deadline 2 op ctx cancelled at step 3 runtime ctx deadline 4 runtime ctx cancel
+	ParentMS   int64 `json:"parent_ms"`   // deadline offset
+	CancelStep int   `json:"cancel_step"` // scheduling step
+	Reuse      bool  `json:"reuse"`
+	AdvanceIn  int   `json:"advance_in"`
 
 	T struct {
-		FailBefore   bool  `json:"fail_before"`
-		FailDuringAt int   `json:"fail_during_at"`
-		FailAfter    bool  `json:"fail_after"`
-		NoResponse   int   `json:"no_response"`
-		Pull         int   `json:"pull"`
-		PullFixed    int   `json:"pull_fixed"`
-		Status       int   `json:"status"`
-		BodyLen      int   `json:"body_len"`
-		BodyFault    int   `json:"body_fault"` // 0 none 1 reset 2 truncate 3 stall
-		BodyFaultAt  int   `json:"body_fault_at"`
-		BodyWithData bool  `json:"body_with_data"`
-		BodyChunk    int   `json:"body_chunk"`
-		BodyFixed    int   `json:"body_fixed"`
-		BodyZero     int   `json:"body_zero"`
-		DeclareLen   bool  `json:"declare_len"`
-		CloseFail    bool  `json:"close_fail"`
+		FailBefore   bool `json:"fail_before"`
+		FailDuringAt int  `json:"fail_during_at"`
+		FailAfter    bool `json:"fail_after"`
+		NoResponse   int  `json:"no_response"`
+		Pull         int  `json:"pull"`
+		PullFixed    int  `json:"pull_fixed"`
+		Status       int  `json:"status"`
+		BodyLen      int  `json:"body_len"`
+		BodyFault    int  `json:"body_fault"` // 0 none 1 reset 2 truncate 3 stall
+		BodyFaultAt  int  `json:"body_fault_at"`
+		BodyWithData bool `json:"body_with_data"`
+		BodyChunk    int  `json:"body_chunk"`
+		BodyFixed    int  `json:"body_fixed"`
+		BodyZero     int  `json:"body_zero"`
+		DeclareLen   bool `json:"declare_len"`
+		CloseFail    bool `json:"close_fail"`
 	} `json:"transport"`
 
 	R struct {
@@ -459,16 +459,16 @@ func (prop) Run(t *testing.T, tape *kernel.Tape, sc kernel.Scenario) *kernel.Res
 	defer kernel.UninstallOrder()
 
 	var (
-		submitRet     any
-		submitErr     error
-		submitPanic   string
-		returned      bool
-		returnAt      time.Duration
-		cancelAt      time.Duration = -1
-		parentDL      time.Duration = -1
-		leaked        []string
-		entryAt       time.Duration
-		startTime     time.Time
+		submitRet   any
+		submitErr   error
+		submitPanic string
+		returned    bool
+		returnAt    time.Duration
+		cancelAt    time.Duration = -1
+		parentDL    time.Duration = -1
+		leaked      []string
+		entryAt     time.Duration
+		startTime   time.Time
 	)
 	deadlock := kernel.RunBubble(t, env, func(k *kernel.K1) {
 		w.k = k
@@ -726,7 +726,6 @@ func (prop) Run(t *testing.T, tape *kernel.Tape, sc kernel.Scenario) *kernel.Res
 	return res
 }
 
-
 func (w *world) sourceErr() bool {
 	for _, f := range w.files {
 		if f.TermDelivered && f.Term != nil {
@@ -778,7 +777,6 @@ func faultSignature(s *scn, e *kernel.Env) string {
 	sort.Strings(kinds)
 	return strings.Join(append(p, kinds...), "+")
 }
-
 
 func drainSig(s *scn, b *kernel.Stream) string {
 	if b.ZeroReadDelivered {
